@@ -304,6 +304,21 @@ def observe_read(path, handles=None):
         res = ("hang", None)
     except Exception as e:
         res = ("rejected", "%s: %s" % (type(e).__name__, str(e)[:90]))
+        # "raises an error instead of returning atoms": a file that OPENS and hands out atom records one by one before the error shows up
+        # has returned atoms -> 'partial' (judged like an acceptance wherever the statement demands an error)
+        got = []
+        try:
+            with _deadline(HANG_SECONDS):
+                gf2 = P.GroFile(path)
+                while len(got) < 100000:
+                    got.append(gf2.readline())
+        except BaseException:      # noqa: the end of the attempt, whatever ends it
+            pass
+        if got:
+            try:
+                res = ("partial", _norm(got), res[1])
+            except Exception:
+                res = ("partial", [None] * len(got), res[1])
     finally:
         if handles is not None:
             handles.close_all()
@@ -315,6 +330,8 @@ def _show(obs):
         return "accepted with %d records %s" % (len(obs[1]), str(obs[1])[:160])
     if obs[0] == "hang":
         return "no answer within %.0f s" % HANG_SECONDS
+    if obs[0] == "partial":
+        return "opened and handed out %d atom records %s before failing (%s)" % (len(obs[1]), str(obs[1])[:120], obs[2])
     return "rejected (%s)" % obs[1]
 
 
@@ -326,7 +343,7 @@ def judge_prefix(plen, total, box_off, want, obs):
     if obs[0] == "hang":
         bad.append(("R1" if plen <= box_off else "?R3", "reader did not return within %.0f s" % HANG_SECONDS))
         return bad
-    if plen <= box_off and obs[0] == "accepted":
+    if plen <= box_off and obs[0] in ("accepted", "partial"):
         bad.append(("R1", "prefix of %d bytes ends before the box line (offset %d) but is %s; expected an exception"
                     % (plen, box_off, _show(obs))))
     if plen > box_off and obs[0] == "accepted" and obs[1] != want:
@@ -730,6 +747,42 @@ def run_abandoned(script, workdir, k):
         return f.read()
 
 
+def run_refused_close(script, workdir, k, use_with):
+    """A writer with the atom count declared up front writes only the first k records and is then CLOSED (explicitly or by leaving
+    its with-block): the close may raise or not -- what counts is the bytes left on disk, which hold fewer records than declared."""
+    import numpy as np
+    P = _parsers()
+    path = os.path.join(workdir, "refused_close.gro")
+    if os.path.exists(path):
+        os.unlink(path)
+    raised = None
+    with _deadline(HANG_SECONDS):
+        def fill(gf):
+            gf.natoms = len(script["records"])
+            gf.box_matrix = np.array(script["box"], dtype=float)
+            gf.comment = script["comment"]
+            if tuple(script["fmt"]) != (8, 3):
+                gf.position_format = tuple(script["fmt"])
+            for rec in script["records"][:k]:
+                gf.writeline(list(rec))
+        try:
+            if use_with:
+                with P.GroFile(path, "w") as gf:
+                    fill(gf)
+            else:
+                gf = P.GroFile(path, "w")
+                fill(gf)
+                gf.close()
+        except Exception as e_:          # noqa: the refusal itself is allowed (and expected)
+            raised = type(e_).__name__
+            try:
+                gf._file.close()         # release the handle so that the bytes are on disk (the object is not used again)
+            except Exception:
+                pass
+    with builtins.open(path, "rb") as f:
+        return f.read(), raised
+
+
 WCLAUSE_ID = {"W1": "ensures.crash_before_close_is_rejected",
               "W2": "ensures.crash_inside_close_is_rejected_unless_all_records_and_box_line_are_on_disk",
               "W3": "ensures.accepted_finished_file_returns_exactly_its_atom_records",
@@ -763,7 +816,7 @@ def judge_snapshot(phase, data, obs, want):
     if phase != "closing":
         if obs[0] == "hang":
             return [("W1", "reader did not return within %.0f s" % HANG_SECONDS)]
-        if obs[0] == "accepted":
+        if obs[0] in ("accepted", "partial"):
             return [("W1", "%d bytes on disk are %s; expected an exception" % (len(data), _show(obs)))]
         return []
     # inside close()
@@ -774,6 +827,8 @@ def judge_snapshot(phase, data, obs, want):
     complete = _holds_all(data, want)
     if obs[0] == "hang":
         return [("?W3" if complete else "W2", "reader did not return within %.0f s" % HANG_SECONDS)]
+    if obs[0] == "partial" and complete:
+        return [("?W3", "complete file inside close() is %s (readability of complete files is C13's subject)" % _show(obs))]
     if not complete:
         return [("W2", "%d bytes on disk do not hold the %d atom records of the finished file followed by a box line, yet are %s"
                  % (len(data), len(want), _show(obs)))]
@@ -879,6 +934,24 @@ def task_writer(n, tier, seed):
                                       "expected an exception" % (k_, nrec, len(data_ab), _show(obs_ab))))
                 except (_Hang, Exception) as e_:      # noqa
                     fails.append(("?W1", -100000 - k_, "abandoned-writer run could not be made: %s: %s" % (type(e_).__name__, str(e_)[:120])))
+            # fewer records than declared, then close() / with-exit attempted: whatever close does, the file on disk is incomplete
+            if declare and nrec >= 2:
+                for k_ in sorted({1, nrec - 1}):
+                    for use_with in (False, True):
+                        try:
+                            data_rc, raised = run_refused_close(script, wd, k_, use_with)
+                            rpath = os.path.join(wd, "refused_close_copy.gro")
+                            with builtins.open(rpath, "wb") as f_:
+                                f_.write(data_rc)
+                            obs_rc = reader(rpath)
+                            acc.add("W2", 1, 1)
+                            if obs_rc[0] != "rejected":
+                                fails.append(("W2", -200000 - 2 * k_ - int(use_with),
+                                              "count %d declared, %d records written, then %s (%s): %d bytes on disk are %s; expected an exception"
+                                              % (nrec, k_, "the with-block left" if use_with else "close() called",
+                                                 "raised " + raised if raised else "no exception", len(data_rc), _show(obs_rc))))
+                        except (_Hang, Exception) as e_:      # noqa
+                            fails.append(("?W2", -200000 - 2 * k_ - int(use_with), "short-close run could not be made: %s: %s" % (type(e_).__name__, str(e_)[:120])))
             for clause, idx, msg in fails:
                 cex = {"kind": "writer", "name": sname, "script": script, "crash_index": idx,
                        "signature": "%s:%s" % (clause.lstrip("?"), "declared" if declare else "backfilled"),
@@ -991,6 +1064,18 @@ def _replay_bounded(prop, cex):
         if cex.get("kind") == "writer":
             script = cex["script"]
             idx0 = cex.get("crash_index")
+            if isinstance(idx0, int) and idx0 <= -200000:       # count declared, fewer records written, close attempted
+                v_ = -200000 - idx0
+                k_, use_with = v_ // 2, bool(v_ % 2)
+                data_rc, raised = run_refused_close(script, wd, k_, use_with)
+                rpath = os.path.join(wd, "refused_close_copy.gro")
+                with builtins.open(rpath, "wb") as f_:
+                    f_.write(data_rc)
+                obs_rc = reader(rpath)
+                return {"reproduced": obs_rc[0] != "rejected",
+                        "observed": "%d bytes on disk after %d of %d declared records and %s (%s): %s"
+                                    % (len(data_rc), k_, len(script["records"]), "with-exit" if use_with else "close()", raised or "no exception", _show(obs_rc)),
+                        "expected": "an exception when the file is opened", "inputs": cex}
             if isinstance(idx0, int) and idx0 <= -100000:       # abandoned writer (never closed, garbage-collected) after k records
                 k_ = -100000 - idx0
                 data_ab = run_abandoned(script, wd, k_)
